@@ -60,11 +60,28 @@ Theorem entry_points_agree :
 Proof. exact entry_points_agree_proof. Qed.
 Print Assumptions entry_points_agree.
 
-(* the premise holds for the concrete instance the check runs *)
+(* the premise holds for the concrete instance the check runs (matches and entry point) *)
 Theorem entry_premise_holds_for_literals :
-  forall pats b, rc_scan pats (map (fun _ => []) pats) b [] = map (fun _ => []) pats.
-Proof. exact rc_scan_empty. Qed.
+  forall pats eps b, rc_scan_acc pats eps (rc_empty pats) b [] = rc_empty pats.
+Proof. exact rc_scan_acc_empty. Qed.
 Print Assumptions entry_premise_holds_for_literals.
+
+(* scanner->entry_point is part of what a not-ready return keeps ([M] above; [rc_acc] in the concrete instance:
+   set from the first block that has one, only while undefined): for every conforming pattern the resumed scan
+   evaluates the rules (entrypoint == n, $s at entrypoint included) on the accumulator of the one-shot scan,
+   whose entry point is that of the first block with one - wherever the not-ready answers fell, in particular
+   after the block carrying the executable header was consumed. *)
+Theorem resume_keeps_entry_point :
+  forall d pats eps rules imports f sc blocks fsz pat,
+  rs_conforming (length blocks) pat = true ->
+  exists acc itf,
+    rc_run d pats eps rules imports f sc blocks fsz pat =
+      Some (rc_finish rules imports f sc acc fsz (map (pure_read_from blocks) (rc_reads rules)),
+            S (count_true pat), rs_init _ (rc_empty pats), itf) /\
+    acc = fold_left (rs_scan_block rc_acc (rc_scan_acc pats eps)) blocks (rc_empty pats) /\
+    ra_entry acc = rc_first_ep eps blocks.
+Proof. exact resume_keeps_entry_point_proof. Qed.
+Print Assumptions resume_keeps_entry_point.
 
 (* A scan started (new iterator) on a scanner whose previous scan was given up after ERROR_BLOCK_NOT_READY -
    the state (m, notebook alive) for ANY leftover matches m; every not-ready return leaves the notebook alive,
@@ -102,8 +119,8 @@ Print Assumptions not_ready_leaves_notebook.
    same scanner: the rule matches with a match at offset 0 of a buffer that does not contain "abc"; the old
    notebook is overwritten by the next scan and not freed by destroy. *)
 Theorem scanner_reuse_after_abandoned_scan_pinned_refuted :
-  ex_scan_ab false (rs_init _ (map (fun _ => []) ex_pats)) = Some ([RNoMatch 0; RFinished], ERROR_SUCCESS, [[]]) /\
-  ex_scan_ab false (ex_abandoned_state false) = Some ([RMatch 0; RFinished], ERROR_SUCCESS, [[0%N]]) /\
+  ex_scan_ab false (rs_init _ (rc_empty ex_pats)) = Some ([RNoMatch 0; RFinished], ERROR_SUCCESS, [[]], None) /\
+  ex_scan_ab false (ex_abandoned_state false) = Some ([RMatch 0; RFinished], ERROR_SUCCESS, [[0%N]], None) /\
   rs_fresh_leaks false _ (ex_abandoned_state false) = true /\
   rs_destroy_leaks false _ (ex_abandoned_state false) = true.
 Proof. exact scanner_reuse_after_abandoned_scan_pinned_refuted_proof. Qed.
@@ -112,11 +129,11 @@ Print Assumptions scanner_reuse_after_abandoned_scan_pinned_refuted.
 (* non-vacuity of scan_after_abandoned_equals_fresh: the abandoned call of the witness does return not-ready and
    leaves a match behind; the current code then answers as a fresh scanner does *)
 Example c13_abandoned_state_exists : forall d,
-  fst (fst (ex_abandoned_call d)) = RsNotReady _ /\ ex_abandoned_state d = mk_rs_state _ [[0%N]] true.
+  fst (fst (ex_abandoned_call d)) = RsNotReady _ /\ ex_abandoned_state d = mk_rs_state _ (mk_rc_acc [[0%N]] None) true.
 Proof. exact abandoned_call_returns_not_ready. Qed.
 Example c13_abandoned_current_code :
-  ex_scan_ab true (ex_abandoned_state true) = Some ([RNoMatch 0; RFinished], ERROR_SUCCESS, [[]]) /\
-  ex_scan_ab true (rs_init _ (map (fun _ => []) ex_pats)) = Some ([RNoMatch 0; RFinished], ERROR_SUCCESS, [[]]) /\
+  ex_scan_ab true (ex_abandoned_state true) = Some ([RNoMatch 0; RFinished], ERROR_SUCCESS, [[]], None) /\
+  ex_scan_ab true (rs_init _ (rc_empty ex_pats)) = Some ([RNoMatch 0; RFinished], ERROR_SUCCESS, [[]], None) /\
   rs_fresh_leaks true _ (ex_abandoned_state true) = false /\
   rs_destroy_leaks true _ (ex_abandoned_state true) = false.
 Proof. exact ex_abandoned_current. Qed.
@@ -129,10 +146,14 @@ Example c13_interrupted :
   rs_conforming 2 [true; false; true; true; false] = true /\
   ex_run [true; false; true; true; false] = Some (ex_expected, 4).
 Proof. exact ex_interrupted. Qed.
+Example c13_entry_point_survives_resume :
+  ex_ep_run [] = Some (([RMatch 0; RMatch 1; RFinished], ERROR_SUCCESS, [[0; 3]%N], Some 3%N), 1) /\
+  ex_ep_run [false; true; false] = Some (([RMatch 0; RMatch 1; RFinished], ERROR_SUCCESS, [[0; 3]%N], Some 3%N), 2).
+Proof. exact ex_entry_point_survives. Qed.
 (* the premise of resume_equivalent is needed: not ready during the re-iteration done by rule evaluation
    (outside the documented contract) turns uint8(4) into undefined and flips a verdict *)
 Example c13_nonconforming_pattern_changes_verdict :
   rs_conforming 2 [false; false; false; true] = false /\
   ex_run [false; false; false; true] =
-    Some (([RMatch 0; RNoMatch 1; RMatch 2; RFinished], ERROR_SUCCESS, [[0; 3]%N]), 1).
+    Some (([RMatch 0; RNoMatch 1; RMatch 2; RFinished], ERROR_SUCCESS, [[0; 3]%N], @None N), 1).
 Proof. exact ex_nonconforming. Qed.
